@@ -291,7 +291,7 @@ proof fn spec_hdrs_decreases(s: Seq<u8>, p: int, acc: Seq<SHdr>, cfg: HCfg, cap:
 }
 
 // ---- the real option record, seen as the oracle's option record
-spec fn hcfg(c: &HeaderParserConfig) -> HCfg {
+pub open spec fn hcfg(c: &HeaderParserConfig) -> HCfg {
     HCfg { sp_after_name: c.allow_spaces_after_header_name, fold: c.allow_obsolete_multiline_headers,
            sp_before_first: c.allow_space_before_first_header_name, ignore: c.ignore_invalid_headers }
 }
@@ -520,3 +520,37 @@ pub open spec fn status_is(r: Result<usize>, res: SRes<Seq<SHdr>>, len: int) -> 
         SRes::Err(e) => r == Err::<Status<usize>, Error>(e),
     }
 }
+
+// ---- assumed contracts of the two cast wrappers (external: raw-pointer casts).  Each is the contract PROVED for the callee
+// (parse_with_config_and_uninit_headers) with capacity = the length of the headers slice held by `self`, plus the restore of
+// the slice length on Partial/Err; the wrapper text itself is a Kani leaf against a model of the callee (kani/harnesses.rs).
+pub assume_specification<'h, 'b>[ Request::<'h, 'b>::parse_with_config ](this: &mut Request<'h, 'b>, buf: &'b [u8], config: &ParserConfig) -> (r: Result<usize>)
+    ensures ({
+        let sp = spec_request(buf@, config.allow_multiple_spaces_in_request_line_delimiters, config.allow_space_before_first_header_name,
+                              config.ignore_invalid_headers_in_requests, old(this).headers@.len() as int);
+        &&& status_is(r, sp.res, buf@.len() as int)
+        &&& field_is(final(this).method, old(this).method, sp.method, buf@)
+        &&& field_is(final(this).path, old(this).path, sp.path, buf@)
+        &&& val_is(final(this).version, old(this).version, sp.version)
+        &&& (!(sp.res is Complete) ==> final(this).headers@.len() == old(this).headers@.len())
+    });
+pub assume_specification<'h, 'b>[ Response::<'h, 'b>::parse_with_config ](this: &mut Response<'h, 'b>, buf: &'b [u8], config: &ParserConfig) -> (r: Result<usize>)
+    ensures ({
+        let sp = spec_response(buf@, config.allow_multiple_spaces_in_response_status_delimiters, config.allow_spaces_after_header_name_in_responses,
+                               config.allow_obsolete_multiline_headers_in_responses, config.allow_space_before_first_header_name,
+                               config.ignore_invalid_headers_in_responses, old(this).headers@.len() as int);
+        &&& status_is(r, sp.res, buf@.len() as int)
+        &&& val_is(final(this).version, old(this).version, sp.version)
+        &&& val_is(final(this).code, old(this).code, sp.code)
+        &&& reason_is(final(this).reason, old(this).reason, sp.reason, buf@)
+        &&& (!(sp.res is Complete) ==> final(this).headers@.len() == old(this).headers@.len())
+    });
+// derive(Default): all flags false (Kani leaf leaf_default_configs)
+pub assume_specification[ <ParserConfig as core::default::Default>::default ]() -> (r: ParserConfig)
+    ensures !r.allow_spaces_after_header_name_in_responses, !r.allow_obsolete_multiline_headers_in_responses,
+        !r.allow_multiple_spaces_in_request_line_delimiters, !r.allow_multiple_spaces_in_response_status_delimiters,
+        !r.allow_space_before_first_header_name, !r.ignore_invalid_headers_in_responses, !r.ignore_invalid_headers_in_requests;
+pub assume_specification[ <HeaderParserConfig as core::default::Default>::default ]() -> (r: HeaderParserConfig)
+    ensures hcfg(&r) == hcfg_default();
+pub assume_specification<'a, 'b, T>[ deinit_slice_mut::<T> ](s: &'a mut &'b mut [T]) -> (r: &'a mut &'b mut [MaybeUninit<T>])
+    ensures r@.len() == old(s)@.len();
